@@ -4,6 +4,7 @@ import (
 	"fmt"
 	"go/constant"
 	"go/token"
+	"go/types"
 	"strings"
 
 	"golang.org/x/tools/go/ssa"
@@ -30,6 +31,7 @@ const (
 	AbsInt             // an integer whose sign is known (Exact when the value is)
 	AbsBool
 	AbsArray // a local array used for a variadic call
+	AbsTuple // the results of an inlined helper with several results
 )
 
 type AbsVal struct {
@@ -40,6 +42,7 @@ type AbsVal struct {
 	Exact *int64 // AbsInt
 	Bool  bool
 	Arr   *ssa.Alloc
+	Elems []AbsVal // AbsTuple
 }
 
 func (v AbsVal) String() string {
@@ -55,6 +58,8 @@ func (v AbsVal) String() string {
 		return fmt.Sprintf("sign%+d", v.Sign)
 	case AbsBool:
 		return fmt.Sprintf("%v", v.Bool)
+	case AbsTuple:
+		return fmt.Sprintf("%v", v.Elems)
 	}
 	return "?"
 }
@@ -96,6 +101,10 @@ type AbsModel struct {
 	// (op = callee key) on a projection/argument, or a comparison of a
 	// projection with a constant (op = "==const:<value>").
 	Predicate func(op string, arg AbsVal) (sym string, ok bool)
+	// Oracle recognises a boolean value of the function (the result of a
+	// call, a comparison) that is an input of the decision under analysis:
+	// its truth is Pred[sym][0].
+	Oracle func(v ssa.Value) (sym string, ok bool)
 }
 
 type absState struct {
@@ -107,6 +116,8 @@ type absState struct {
 	why     string
 	steps   int
 	cellSet map[*ssa.Alloc]bool
+	only    int // when >= 0, the only result that has to be decided
+	depth   int // inlining depth
 }
 
 // AbsEval returns the sign of fn's (single int or bool) result under facts f;
@@ -130,10 +141,27 @@ func AbsEval(fn *ssa.Function, m AbsModel, f AbsFacts) (res AbsVal, ok bool, why
 // When a branch condition is not decided by the facts both successors are
 // followed, and the evaluation succeeds only if all paths agree on the results.
 func AbsEvalMulti(fn *ssa.Function, m AbsModel, f AbsFacts) (res []AbsVal, ok bool, why string) {
+	return absEvalOnly(fn, m, f, -1)
+}
+
+// AbsEvalResult evaluates result idx of fn only: the other results need not be
+// decided by the facts.
+func AbsEvalResult(fn *ssa.Function, m AbsModel, f AbsFacts, idx int) (res AbsVal, ok bool, why string) {
+	rs, ok, why := absEvalOnly(fn, m, f, idx)
+	if !ok {
+		return AbsVal{}, false, why
+	}
+	if idx >= len(rs) || (rs[idx].Kind != AbsInt && rs[idx].Kind != AbsBool) {
+		return AbsVal{}, false, "result is not decided by the facts"
+	}
+	return rs[idx], true, ""
+}
+
+func absEvalOnly(fn *ssa.Function, m AbsModel, f AbsFacts, only int) (res []AbsVal, ok bool, why string) {
 	if fn == nil || len(fn.Blocks) == 0 {
 		return nil, false, "no body"
 	}
-	st := &absState{fn: fn, m: m, f: f, vals: map[ssa.Value]AbsVal{}, arrs: map[*ssa.Alloc]map[int64]AbsVal{}, cellSet: map[*ssa.Alloc]bool{}}
+	st := &absState{fn: fn, m: m, f: f, vals: map[ssa.Value]AbsVal{}, arrs: map[*ssa.Alloc]map[int64]AbsVal{}, cellSet: map[*ssa.Alloc]bool{}, only: only}
 	for i, p := range fn.Params {
 		st.vals[p] = AbsVal{Kind: AbsParam, Idx: i}
 	}
@@ -142,7 +170,7 @@ func AbsEvalMulti(fn *ssa.Function, m AbsModel, f AbsFacts) (res []AbsVal, ok bo
 }
 
 func (st *absState) clone() *absState {
-	c := &absState{fn: st.fn, m: st.m, f: st.f, vals: map[ssa.Value]AbsVal{}, arrs: map[*ssa.Alloc]map[int64]AbsVal{}, steps: st.steps, cellSet: map[*ssa.Alloc]bool{}}
+	c := &absState{fn: st.fn, m: st.m, f: st.f, vals: map[ssa.Value]AbsVal{}, arrs: map[*ssa.Alloc]map[int64]AbsVal{}, steps: st.steps, cellSet: map[*ssa.Alloc]bool{}, only: st.only, depth: st.depth}
 	for k := range st.cellSet {
 		c.cellSet[k] = true
 	}
@@ -220,6 +248,10 @@ func (st *absState) run(b, prev *ssa.BasicBlock, forks *int) (res []AbsVal, ok b
 				out := make([]AbsVal, len(x.Results))
 				for i, rv := range x.Results {
 					out[i] = st.val(rv)
+					if st.only >= 0 && i != st.only {
+						out[i] = AbsVal{}
+						continue
+					}
 					if out[i].Kind == AbsUnknown {
 						return nil, false, fmt.Sprintf("result %s at %s is not decided by the facts (%s)", rv.Name(), posOf(fn, in), st.why)
 					}
@@ -318,8 +350,24 @@ func (st *absState) relSign(sym string, i, j int) (int, bool) {
 }
 
 func (st *absState) eval(v ssa.Value) AbsVal {
+	if st.m.Oracle != nil {
+		if sym, ok := st.m.Oracle(v); ok {
+			return AbsVal{Kind: AbsBool, Bool: st.f.Pred[sym][0]}
+		}
+	}
 	switch x := v.(type) {
 	case *ssa.Alloc:
+		// a local variable kept in a cell starts with its zero value
+		if bt, ok := x.Type().Underlying().(*types.Pointer).Elem().Underlying().(*types.Basic); ok {
+			switch {
+			case bt.Info()&types.IsBoolean != 0:
+				st.cellSet[x] = true
+				return AbsVal{Kind: AbsBool, Bool: false}
+			case bt.Info()&types.IsInteger != 0:
+				st.cellSet[x] = true
+				return absInt(0)
+			}
+		}
 		return AbsVal{Kind: AbsArray, Arr: x}
 	case *ssa.IndexAddr:
 		if base := st.val(x.X); base.Kind == AbsParam {
@@ -336,6 +384,11 @@ func (st *absState) eval(v ssa.Value) AbsVal {
 			return a
 		}
 		return st.unknown("slice expression")
+	case *ssa.Extract:
+		if t := st.val(x.Tuple); t.Kind == AbsTuple && x.Index < len(t.Elems) {
+			return t.Elems[x.Index]
+		}
+		return st.unknown("result %d of an undecided call", x.Index)
 	case *ssa.ChangeType:
 		return st.val(x.X)
 	case *ssa.Convert:
@@ -573,6 +626,24 @@ func (st *absState) call(x *ssa.Call) AbsVal {
 		}
 		if sym, ok := st.m.Project(key, args[0]); ok && (args[0].Kind == AbsProj || args[0].Kind == AbsParam) {
 			return AbsVal{Kind: AbsProj, Sym: sym, Idx: args[0].Idx}
+		}
+	}
+	// a helper of the module whose body the facts decide: evaluate it in place
+	if h := Impl(callee); h != nil && len(h.Blocks) > 0 && InModule(h) && st.depth < 3 && h.Signature.Results().Len() >= 1 {
+		sub := &absState{fn: h, m: st.m, f: st.f, vals: map[ssa.Value]AbsVal{}, arrs: map[*ssa.Alloc]map[int64]AbsVal{}, cellSet: map[*ssa.Alloc]bool{}, only: -1, depth: st.depth + 1, steps: st.steps}
+		for i, prm := range h.Params {
+			if i < len(args) {
+				sub.vals[prm] = args[i]
+			}
+		}
+		forks := 3 // at most three undecided branches inside a helper
+		if rs, ok, _ := sub.run(h.Blocks[0], nil, &forks); ok {
+			if len(rs) == 1 && (rs[0].Kind == AbsBool || rs[0].Kind == AbsInt) {
+				return rs[0]
+			}
+			if len(rs) > 1 {
+				return AbsVal{Kind: AbsTuple, Elems: rs}
+			}
 		}
 	}
 	return st.unknown("call of %s is not part of the model", key)
